@@ -1,14 +1,428 @@
 /-
-C13, round 2 — the entry points as they are called: input dispatch, keyword handling, the generated constants.
+C13, round 2 — the entry points as they are called.
+
+* `tables_extracted`, `tables_spec`, `kw_forwarding`: the constants the model is stated over are regenerated from
+  the source (harness/translate_c13.py → Gen/C13Tables.lean) and have the documented values;
+* `ensure_dispatch`: which kinds of `note_info` are accepted and which columns the note array then has;
+* `trunc_spec`, `resolve_spec`: keyword defaults, `int(time_div)`, `end_time.item()`;
+* `call_spec`, `score_input_spec`, `perf_input_spec`: the composition down to `_make_pianoroll`, velocities 1 for
+  score-like inputs, drums dropped for performance-like inputs;
+* `pc_inner`, `pc_spec`: `compute_pitch_class_pianoroll` as one function of its own keywords.
 -/
-import PartituraModel.Proofs.C13
-import PartituraModel.Model.PianoRollArgs
+import PartituraModel.Props.C13
+import PartituraModel.Proofs.C13Args
 
 namespace C13
 open Model Model.PianoRoll
 open List
 
+/-! ### the generated constants -/
+
 /-- the translator could read every constant from the source -/
 theorem tables_extracted : Gen.C13_EXTRACTION_OK = true := by decide
+
+/-- **every constant of the source has its documented value**: the time units, the defaults of the three public
+    functions, eight frames per beat / quarter / second and one per div / tick, drum channel 9, pitches 0..127,
+    piano range rows 21..108, the decoder's 128 / 88 rows with pitch offsets 0 / 21, twelve pitch classes folded
+    from 128 pitches, and the literals of the pitch-class function's inner call -/
+theorem tables_spec :
+    TIME_UNITS = ["beat", "quarter", "sec", "div", "tick"] ∧
+    Gen.C13_AUTO_DIV = [("beat", some 8), ("quarter", some 8), ("sec", some 8), ("div", some 1), ("tick", some 1)] ∧
+    (Gen.C13_PR_DEFAULT_time_unit = "auto" ∧ Gen.C13_PR_DEFAULT_time_div = none ∧
+      Gen.C13_PR_DEFAULT_onset_only = false ∧ Gen.C13_PR_DEFAULT_note_separation = false ∧
+      Gen.C13_PR_DEFAULT_pitch_margin = -1 ∧ Gen.C13_PR_DEFAULT_time_margin = 0 ∧
+      Gen.C13_PR_DEFAULT_return_idxs = false ∧ Gen.C13_PR_DEFAULT_piano_range = false ∧
+      Gen.C13_PR_DEFAULT_remove_drums = true ∧ Gen.C13_PR_DEFAULT_remove_silence = true ∧
+      Gen.C13_PR_DEFAULT_end_time = none ∧ Gen.C13_PR_DEFAULT_binary = false) ∧
+    (Gen.C13_PC_DEFAULT_normalize = true ∧ Gen.C13_PC_DEFAULT_time_unit = "auto" ∧ Gen.C13_PC_DEFAULT_time_div = none ∧
+      Gen.C13_PC_DEFAULT_onset_only = false ∧ Gen.C13_PC_DEFAULT_note_separation = false ∧
+      Gen.C13_PC_DEFAULT_time_margin = 0 ∧ Gen.C13_PC_DEFAULT_return_idxs = false ∧
+      Gen.C13_PC_DEFAULT_remove_silence = true ∧ Gen.C13_PC_DEFAULT_end_time = none ∧
+      Gen.C13_PC_DEFAULT_binary = false) ∧
+    (Gen.C13_DEC_DEFAULT_time_div = 8 ∧ Gen.C13_DEC_DEFAULT_time_unit = "sec") ∧
+    Gen.C13_PC_FORCED = [("pitch_margin", (none, some (-1))), ("piano_range", (some false, none)),
+      ("remove_drums", (some true, none)), ("binary", (some false, none))] ∧
+    (Gen.C13_DRUM_CHANNEL = 9 ∧ Gen.C13_LOWEST_PITCH = 0 ∧ Gen.C13_HIGHEST_PITCH = 127 ∧
+      Gen.C13_PIANO_LO = 21 ∧ Gen.C13_PIANO_HI = 109 ∧ Gen.C13_IDX_START = 0 ∧ Gen.C13_IDX_START_PIANO = 21) ∧
+    (Gen.C13_DEC_ROWS_FULL = 128 ∧ Gen.C13_DEC_ROWS_PIANO = 88 ∧ Gen.C13_DEC_INIT_FULL = 0 ∧ Gen.C13_DEC_INIT_PIANO = 21) ∧
+    (Gen.C13_PC_ROWS = 12 ∧ Gen.C13_PC_SPAN = 128 ∧ Gen.C13_PC_STEP = 12 ∧ Gen.C13_PC_MOD = 12 ∧ pcSlices = 11) := by
+  refine ⟨by decide, by decide, by decide, by decide, by decide, by decide, by decide, by decide, by decide⟩
+
+/-- **keywords are passed on under their own names**: `compute_pianoroll` hands every parameter of
+    `_make_pianoroll` except `min_time` (the stacked columns as `note_info`), none as a literal;
+    `compute_pitch_class_pianoroll` hands its own `note_info`, `time_unit`, `time_div`, `onset_only`,
+    `note_separation`, `time_margin`, `return_idxs`, `remove_silence`, `end_time` to `compute_pianoroll`
+    (`normalize` and `binary` stay with the fold) -/
+theorem kw_forwarding :
+    (Gen.C13_MK_FORWARD.filter (fun kv => kv.1 != kv.2) = [("note_info", "pr_input")] ∧
+      Gen.C13_MK_FORCED = [] ∧
+      Gen.C13_MK_PARAMS.filter (fun p => !(Gen.C13_MK_FORWARD.map (·.1)).contains p) = ["min_time"]) ∧
+    (Gen.C13_PC_FORWARD.filter (fun kv => kv.1 != kv.2) = [] ∧
+      Gen.C13_PC_FORWARD.map (·.1) = ["note_info", "time_unit", "time_div", "onset_only", "note_separation",
+        "time_margin", "return_idxs", "remove_silence", "end_time"]) := by
+  refine ⟨⟨by decide, by decide, by decide⟩, by decide, by decide⟩
+
+/-! ### `ensure_notearray` -/
+
+def SCORE_KINDS : List String := ["part", "partgroup", "score", "partlist"]
+def PERF_KINDS : List String := ["performedpart", "performance"]
+
+/-- **input dispatch**: a structured array is used as it is; a Part, PartGroup, Score or list of Parts stands
+    for a score note array (beat, quarter and div columns, neither velocity nor channel); a PerformedPart or
+    Performance for a performance note array (sec and tick columns, velocity and channel); every other kind
+    of input — an unstructured array, a list of PerformedParts, an empty list, a string, `None`, ... — is
+    rejected -/
+theorem ensure_dispatch (kind : String) (a : NoteArray) :
+    (kind = "array" → ensureNotearray kind a = some a) ∧
+    (kind ∈ SCORE_KINDS → ensureNotearray kind a =
+      some { units := ["beat", "quarter", "div"], hasVel := false, hasChan := false, rows := a.rows }) ∧
+    (kind ∈ PERF_KINDS → ensureNotearray kind a =
+      some { units := ["sec", "tick"], hasVel := true, hasChan := true, rows := a.rows }) ∧
+    (kind ≠ "array" → kind ∉ SCORE_KINDS → kind ∉ PERF_KINDS → ensureNotearray kind a = none) := by
+  refine ⟨?_, ?_, ?_, ?_⟩
+  · intro h; subst h; rfl
+  · intro h
+    simp only [SCORE_KINDS, mem_cons, not_mem_nil, or_false] at h
+    rcases h with rfl | rfl | rfl | rfl <;> rfl
+  · intro h
+    simp only [PERF_KINDS, mem_cons, not_mem_nil, or_false] at h
+    rcases h with rfl | rfl <;> rfl
+  · intro h0 h1 h2
+    simp only [SCORE_KINDS, PERF_KINDS, mem_cons, not_mem_nil, or_false, not_or] at h1 h2
+    obtain ⟨a1, a2, a3, a4⟩ := h1
+    obtain ⟨b1, b2⟩ := h2
+    unfold ensureNotearray
+    rw [if_neg h0]
+    have hl : ∀ v, Model.lookup kind Gen.C13_LAYOUTS = some v → v = none := by
+      intro v hv
+      have hm := lookup_mem _ _ _ hv
+      simp only [Gen.C13_LAYOUTS, mem_cons, Prod.mk.injEq, not_mem_nil, or_false] at hm
+      rcases hm with ⟨hk, hv'⟩ | ⟨hk, hv'⟩ | ⟨hk, hv'⟩ | ⟨hk, hv'⟩ | ⟨hk, hv'⟩ | ⟨hk, hv'⟩ | ⟨hk, hv'⟩ | ⟨hk, hv'⟩ |
+        ⟨hk, hv'⟩ | ⟨hk, hv'⟩ | ⟨hk, hv'⟩
+      all_goals first
+        | exact absurd hk a1 | exact absurd hk a2 | exact absurd hk a3 | exact absurd hk a4
+        | exact absurd hk b1 | exact absurd hk b2 | exact hv'
+    cases hk : Model.lookup kind Gen.C13_LAYOUTS with
+    | none => rfl
+    | some v => rw [hl v hk]
+
+example : ensureNotearray "performedpartlist" exArray = none ∧ ensureNotearray "plainarray" exArray = none ∧
+    ensureNotearray "none" exArray = none ∧ ensureNotearray "whatever" exArray = none := by decide
+
+/-! ### keyword handling -/
+
+/-- Python's `int()` of a number truncates toward zero (and is the identity on integers) -/
+theorem trunc_spec (q : Rat) :
+    (0 ≤ q → 0 ≤ truncRat q ∧ (truncRat q : Rat) ≤ q ∧ q < (truncRat q : Rat) + 1) ∧
+    (q < 0 → truncRat q ≤ 0 ∧ q ≤ (truncRat q : Rat) ∧ (truncRat q : Rat) - 1 < q) ∧
+    (∀ k : Int, q = (k : Rat) → truncRat q = k) := by
+  refine ⟨?_, ?_, ?_⟩
+  · intro h
+    unfold truncRat
+    rw [if_pos h]
+    refine ⟨Rat.le_floor_iff.mpr (by simpa using h), Rat.floor_le _, ?_⟩
+    have := Rat.lt_floor_add_one q
+    push_cast at this
+    exact this
+  · intro h
+    unfold truncRat
+    rw [if_neg (not_le.mpr h)]
+    refine ⟨Rat.ceil_le_iff.mpr (by simpa using le_of_lt h), Rat.le_ceil, ?_⟩
+    have := (Rat.lt_ceil_iff (x := q) (y := q.ceil - 1)).mp (by omega)
+    push_cast at this
+    exact this
+  · intro k hk
+    subst hk
+    unfold truncRat
+    rw [Rat.floor_intCast, Rat.ceil_intCast]
+    split <;> rfl
+
+example : truncRat (27/10) = 2 ∧ truncRat (-3/2) = -1 ∧ truncRat (1/2) = 0 := by decide +kernel
+
+/-- what `end_time` stands for: `None`, the number, or the single element of a sequence -/
+def endTimeValue : Option EndTimeArg → Option Rat
+  | none => none
+  | some (.scalar q) => some q
+  | some (.array xs) => xs.head?
+
+/-- **keyword handling**: the call fails when `time_div` is an array with a dimension or `end_time` a sequence
+    that does not have exactly one element; otherwise every omitted keyword has its documented default,
+    `time_div` is `"auto"` (resolved per unit by `prepare_spec` / `auto_time_div`) or `int(time_div)`
+    (`trunc_spec`), `end_time` is `None`, the number given or the single element of the sequence, and every
+    other keyword is passed through -/
+theorem resolve_spec (kw : KwArgs) :
+    ((kw.timeDiv = some .array ∨ ∃ xs, kw.endTime = some (.array xs) ∧ xs.length ≠ 1) → resolveArgs kw = none) ∧
+    (kw.timeDiv ≠ some .array → (∀ xs, kw.endTime = some (.array xs) → xs.length = 1) →
+      ∃ g ri, resolveArgs kw = some (g, ri) ∧
+        g.timeUnit = kw.timeUnit.getD "auto" ∧
+        g.timeDiv = (match kw.timeDiv with | some (.num q) => some (truncRat q) | _ => none) ∧
+        g.removeDrums = kw.removeDrums.getD true ∧
+        g.opts.onsetOnly = kw.onsetOnly.getD false ∧ g.opts.noteSep = kw.noteSep.getD false ∧
+        g.opts.pitchMargin = kw.pitchMargin.getD (-1) ∧ g.opts.timeMargin = kw.timeMargin.getD 0 ∧
+        g.opts.pianoRange = kw.pianoRange.getD false ∧ g.opts.removeSilence = kw.removeSilence.getD true ∧
+        g.opts.endTime = endTimeValue kw.endTime ∧ g.opts.binary = kw.binary.getD false ∧
+        ri = kw.returnIdxs.getD false) := by
+  obtain ⟨_, _, hd, _⟩ := tables_spec
+  obtain ⟨d1, d2, d3, d4, d5, d6, d7, d8, d9, d10, d11, d12⟩ := hd
+  constructor
+  · rintro (h | ⟨xs, h, hl⟩)
+    · unfold resolveArgs resolveTimeDiv
+      rw [h]
+    · unfold resolveArgs resolveEndTime
+      rw [h]
+      have : (EndTimeArg.array xs).item = none := by
+        match xs, hl with
+        | [], _ => rfl
+        | [_], hl => simp at hl
+        | _ :: _ :: _, _ => rfl
+      simp only [this]
+      split <;> simp_all
+  · intro h1 h2
+    have ht : ∃ td, resolveTimeDiv kw.timeDiv = some td ∧
+        td = (match kw.timeDiv with | some (.num q) => some (truncRat q) | _ => none) := by
+      unfold resolveTimeDiv
+      rw [d2]
+      match hk : kw.timeDiv with
+      | none => exact ⟨_, rfl, rfl⟩
+      | some .auto => exact ⟨_, rfl, rfl⟩
+      | some (.num q) => exact ⟨_, rfl, rfl⟩
+      | some .array => exact absurd hk h1
+    have he : resolveEndTime kw.endTime = some (endTimeValue kw.endTime) := by
+      unfold resolveEndTime
+      rw [d11]
+      match hk : kw.endTime with
+      | none => rfl
+      | some (.scalar q) => rfl
+      | some (.array xs) =>
+        have := h2 xs hk
+        match xs, this with
+        | [x], _ => rfl
+    obtain ⟨td, htd, htd2⟩ := ht
+    unfold resolveArgs
+    rw [htd, he]
+    refine ⟨_, _, rfl, ?_⟩
+    simp only [d1, d3, d4, d5, d6, d7, d8, d9, d10, d12, htd2, and_self]
+
+def exKw : KwArgs := { KwArgs.empty with timeDiv := some (.num (27/10)), endTime := some (.array [4]), timeMargin := some (1/2) }
+
+example : (resolveArgs exKw).map (fun x => (x.1.timeDiv, x.1.opts.endTime, x.1.opts.timeMargin, x.1.removeDrums, x.2))
+    = some (some 2, some 4, 1/2, true, false) := by decide +kernel
+example : resolveArgs { exKw with endTime := some (.array [4, 5]) } = none ∧
+    resolveArgs { exKw with endTime := some (.array []) } = none ∧
+    resolveArgs { exKw with timeDiv := some .array } = none := by decide +kernel
+
+/-! ### the whole call -/
+
+/-- **`compute_pianoroll(note_info, **keywords)`** succeeds exactly when the dispatch, the keyword handling, the
+    unit / field selection and `_make_pianoroll` all do, and returns that roll (`t0_spec` … `idx_designate`
+    describe it) together with `return_idxs` -/
+theorem call_spec (kind : String) (a : NoteArray) (kw : KwArgs) (r : Roll) (ri : Bool) :
+    computePianorollKw kind a kw = some (r, ri) ↔
+      ∃ arr g o notes, ensureNotearray kind a = some arr ∧ resolveArgs kw = some (g, ri) ∧
+        prepare arr g = some (o, notes) ∧ makePianoroll o notes = some r := by
+  unfold computePianorollKw computePianoroll
+  constructor
+  · intro h
+    split at h
+    · rename_i arr g ri' h1 h2
+      split at h
+      · simp at h
+      · rename_i r' hr
+        split at hr
+        · simp at hr
+        · rename_i o notes hp
+          simp only [Option.some.injEq, Prod.mk.injEq] at h
+          obtain ⟨rfl, rfl⟩ := h
+          exact ⟨arr, g, o, notes, h1, h2, hp, hr⟩
+    · simp at h
+  · rintro ⟨arr, g, o, notes, h1, h2, h3, h4⟩
+    simp only [h1, h2, h3, h4]
+
+/-- **score-like inputs**: the roll of a Part / PartGroup / Score / list of Parts is made from *all* rows of its
+    note array (there is no channel column: nothing is dropped, whatever `remove_drums` says), every note
+    counting as velocity 1 (so covered cells hold 1: `cell_binary`); the time unit is one of beat, quarter,
+    div — beat when inferred -/
+theorem score_input_spec (kind : String) (hk : kind ∈ SCORE_KINDS) (a : NoteArray) (kw : KwArgs) (r : Roll) (ri : Bool)
+    (h : computePianorollKw kind a kw = some (r, ri)) :
+    ∃ g o notes k, resolveArgs kw = some (g, ri) ∧ makePianoroll o notes = some r ∧
+      indexOf (if g.timeUnit = "auto" then "beat" else g.timeUnit) ["beat", "quarter", "div"] = some k ∧
+      (∀ n ∈ notes, n.vel = 1) ∧
+      Forall₂ (fun row n => ∃ on du, row.times[k]? = some (on, du) ∧ n.pitch = row.pitch ∧ n.onset = on ∧ n.dur = du)
+        a.rows notes := by
+  obtain ⟨arr, g, o, notes, h1, h2, h3, h4⟩ := (call_spec kind a kw r ri).mp h
+  rw [(ensure_dispatch kind a).2.1 hk] at h1
+  simp only [Option.some.injEq] at h1
+  subst h1
+  obtain ⟨unit, k, _, hu, hidx, _, _, hrows⟩ := prepare_spec _ g o notes h3
+  simp only [Bool.false_and, Bool.false_eq_true, if_false] at hrows
+  have hunit : unit = if g.timeUnit = "auto" then "beat" else g.timeUnit := by
+    by_cases ha : g.timeUnit = "auto"
+    · rw [if_pos ha] at hu ⊢
+      have : timeUnitsAuto ["beat", "quarter", "div"] = some "beat" := by decide
+      rw [this] at hu
+      exact (Option.some.inj hu).symm
+    · rw [if_neg ha] at hu ⊢
+      exact hu
+  refine ⟨g, o, notes, k, h2, h4, hunit ▸ hidx, ?_, ?_⟩
+  · exact forall₂_right hrows (fun row n ⟨_, _, _, hrn⟩ => by rw [hrn])
+  · refine hrows.imp ?_
+    rintro row n ⟨on, du, ht, rfl⟩
+    exact ⟨on, du, ht, rfl, rfl, rfl⟩
+
+/-- **performance-like inputs**: the roll of a PerformedPart / Performance is made from the rows of its note
+    array without those of channel 9 when `remove_drums` holds (the default), and from all of them otherwise,
+    with their own velocities; the time unit is sec or tick — sec when inferred -/
+theorem perf_input_spec (kind : String) (hk : kind ∈ PERF_KINDS) (a : NoteArray) (kw : KwArgs) (r : Roll) (ri : Bool)
+    (h : computePianorollKw kind a kw = some (r, ri)) :
+    ∃ g o notes k, resolveArgs kw = some (g, ri) ∧ makePianoroll o notes = some r ∧
+      g.removeDrums = kw.removeDrums.getD true ∧
+      indexOf (if g.timeUnit = "auto" then "sec" else g.timeUnit) ["sec", "tick"] = some k ∧
+      Forall₂ (fun row n => ∃ on du, row.times[k]? = some (on, du) ∧ n.pitch = row.pitch ∧ n.onset = on ∧ n.dur = du ∧
+          n.vel = row.vel.getD 1)
+        (if g.removeDrums then a.rows.filter (fun row => row.chan != some 9) else a.rows) notes := by
+  obtain ⟨arr, g, o, notes, h1, h2, h3, h4⟩ := (call_spec kind a kw r ri).mp h
+  rw [(ensure_dispatch kind a).2.2.1 hk] at h1
+  simp only [Option.some.injEq] at h1
+  subst h1
+  obtain ⟨unit, k, _, hu, hidx, _, _, hrows⟩ := prepare_spec _ g o notes h3
+  simp only [Bool.true_and] at hrows
+  have hunit : unit = if g.timeUnit = "auto" then "sec" else g.timeUnit := by
+    by_cases ha : g.timeUnit = "auto"
+    · rw [if_pos ha] at hu ⊢
+      have : timeUnitsAuto ["sec", "tick"] = some "sec" := by decide
+      rw [this] at hu
+      exact (Option.some.inj hu).symm
+    · rw [if_neg ha] at hu ⊢
+      exact hu
+  have hrd : g.removeDrums = kw.removeDrums.getD true := by
+    have hne : kw.timeDiv ≠ some .array := by
+      intro hc
+      rw [(resolve_spec kw).1 (Or.inl hc)] at h2
+      simp at h2
+    have hne2 : ∀ xs, kw.endTime = some (.array xs) → xs.length = 1 := by
+      intro xs hx
+      by_contra hc
+      rw [(resolve_spec kw).1 (Or.inr ⟨xs, hx, hc⟩)] at h2
+      simp at h2
+    obtain ⟨g', ri', hg, _, _, hd, _⟩ := (resolve_spec kw).2 hne hne2
+    rw [h2] at hg
+    simp only [Option.some.injEq, Prod.mk.injEq] at hg
+    rw [hg.1]
+    exact hd
+  refine ⟨g, o, notes, k, h2, h4, hrd, hunit ▸ hidx, ?_⟩
+  refine hrows.imp ?_
+  rintro row n ⟨on, du, ht, rfl⟩
+  exact ⟨on, du, ht, rfl, rfl, rfl, rfl⟩
+
+/-- a performance with a drum note (channel 9) and one on channel 0 -/
+def exPerf : NoteArray :=
+  { units := [], hasVel := false, hasChan := false,
+    rows := [⟨60, [(0, 1), (0, 8)], some 80, some 0⟩, ⟨36, [(1/2, 1/2), (4, 4)], some 100, some 9⟩] }
+
+example : (computePianorollKw "performedpart" exPerf KwArgs.empty).map (fun x => (x.1.rows, x.1.cols, x.1.cell 60 0, x.1.cell 36 4))
+    = some (128, 8, 80, 0) := by decide +kernel
+example : (computePianorollKw "performance" exPerf { KwArgs.empty with removeDrums := some false }).map
+    (fun x => (x.1.rows, x.1.cols, x.1.cell 60 0, x.1.cell 36 4)) = some (128, 8, 80, 100) := by decide +kernel
+/-- the same rows read as a score note array: beat columns, velocity 1, nothing dropped -/
+example : (computePianorollKw "part" { exPerf with rows := exPerf.rows.map fun r => { r with times := r.times ++ [(0, 1)] } }
+    KwArgs.empty).map (fun x => (x.1.cols, x.1.cell 60 0, x.1.cell 36 4)) = some (8, 1, 1) := by decide +kernel
+example : computePianorollKw "performedpartlist" exPerf KwArgs.empty = none := by decide +kernel
+
+/-! ### `compute_pitch_class_pianoroll` -/
+
+/-- **the inner call**: `pitch_margin = -1`, `piano_range = False`, `remove_drums = True`, `binary = False`
+    whatever the caller says; the other keywords are the pitch-class function's own arguments (its own
+    defaults where omitted — they coincide with those of `compute_pianoroll`) -/
+theorem pc_inner (kw : PcKw) :
+    (pcInnerKw kw).pitchMargin = some (-1) ∧ (pcInnerKw kw).pianoRange = some false ∧
+    (pcInnerKw kw).removeDrums = some true ∧ (pcInnerKw kw).binary = some false ∧
+    (pcInnerKw kw).timeUnit = some (kw.timeUnit.getD "auto") ∧
+    (pcInnerKw kw).timeDiv = some (kw.timeDiv.getD .auto) ∧
+    (pcInnerKw kw).onsetOnly = some (kw.onsetOnly.getD false) ∧ (pcInnerKw kw).noteSep = some (kw.noteSep.getD false) ∧
+    (pcInnerKw kw).timeMargin = some (kw.timeMargin.getD 0) ∧
+    (pcInnerKw kw).returnIdxs = some (kw.returnIdxs.getD false) ∧
+    (pcInnerKw kw).removeSilence = some (kw.removeSilence.getD true) ∧ (pcInnerKw kw).endTime = kw.endTime := by
+  have f1 : pcForcedInt "pitch_margin" = some (-1) := by decide
+  have f2 : pcForcedBool "piano_range" = some false := by decide
+  have f3 : pcForcedBool "remove_drums" = some true := by decide
+  have f4 : pcForcedBool "binary" = some false := by decide
+  refine ⟨f1, f2, f3, f4, rfl, rfl, rfl, rfl, rfl, rfl, rfl, ?_⟩
+  unfold pcInnerKw
+  simp only
+  cases kw.endTime <;> rfl
+
+/-- **the pitch-class roll**: `compute_pitch_class_pianoroll` succeeds exactly when the inner call does; the
+    roll folded has 128 rows; the result has 12 rows and the same number of columns, entry `(c, j)` being
+    `pcOut` — the octave fold `pc_fold`, set to 1 where positive when `binary`, divided by the column sum when
+    `normalize` (`pc_normalised`, default on) —, and the index rows (only when requested) are those of the full
+    roll with the vertical position taken mod 12 -/
+theorem pc_spec (kind : String) (a : NoteArray) (kw : PcKw) :
+    (computePcKw kind a kw = none ↔ computePianorollKw kind a (pcInnerKw kw) = none) ∧
+    ∀ out, computePcKw kind a kw = some out →
+      ∃ r ri, computePianorollKw kind a (pcInnerKw kw) = some (r, ri) ∧ ri = kw.returnIdxs.getD false ∧
+        r.rows = 128 ∧ out.cols = r.cols ∧ out.columns.length = r.cols.toNat ∧
+        (∀ j : Nat, j < r.cols.toNat → ∀ c : Nat, c < 12 →
+          (out.columns[j]?.bind (·[c]?)) = some (pcOut r (kw.binary.getD false) (kw.normalize.getD true) c j)) ∧
+        (∀ col ∈ out.columns, col.length = 12) ∧
+        out.idx = if ri then some (r.idx.map fun (p, on, off, mp) => (p % 12, on, off, mp)) else none := by
+  constructor
+  · unfold computePcKw
+    cases computePianorollKw kind a (pcInnerKw kw) with
+    | none => simp
+    | some x => simp
+  · intro out h
+    unfold computePcKw at h
+    split at h
+    · simp at h
+    · rename_i r ri hr
+      simp only [Option.some.injEq] at h
+      subst h
+      obtain ⟨arr, g, o, notes, h1, h2, h3, h4⟩ := (call_spec kind a _ r ri).mp hr
+      obtain ⟨p1, p2, _, _, _, _, _, _, _, p10, _, _⟩ := pc_inner kw
+      have hne : (pcInnerKw kw).timeDiv ≠ some .array := by
+        intro hc
+        rw [(resolve_spec _).1 (Or.inl hc)] at h2
+        simp at h2
+      have hne2 : ∀ xs, (pcInnerKw kw).endTime = some (.array xs) → xs.length = 1 := by
+        intro xs hx
+        by_contra hc
+        rw [(resolve_spec _).1 (Or.inr ⟨xs, hx, hc⟩)] at h2
+        simp at h2
+      obtain ⟨g', ri', hg, _, _, _, _, _, hpm, _, hpr, _, _, _, hri⟩ := (resolve_spec _).2 hne hne2
+      rw [h2] at hg
+      simp only [Option.some.injEq, Prod.mk.injEq] at hg
+      obtain ⟨rfl, rfl⟩ := hg
+      rw [p1] at hpm
+      rw [p2] at hpr
+      rw [p10] at hri
+      obtain ⟨_, _, _, _, _, _, ho, _⟩ := prepare_spec arr g o notes h3
+      have hopm : o.pitchMargin = -1 := by rw [ho]; exact hpm
+      have hopr : o.pianoRange = false := by rw [ho]; exact hpr
+      have hrows : r.rows = 128 := (shape_rows o notes r h4).1 hopm hopr
+      obtain ⟨_, _, _, hpcd, _, _, _, _, hpcc⟩ := tables_spec
+      obtain ⟨n1, _, _, _, _, _, _, _, _, n10⟩ := hpcd
+      refine ⟨r, ri, hr, hri, hrows, rfl, by simp, ?_, ?_, ?_⟩
+      · intro j hj c hc
+        simp only [n1, n10]
+        rw [getElem?_map, getElem?_range hj]
+        simp only [Option.map_some, Option.bind_some, pc_column]
+        rw [getElem?_map, getElem?_range hc]
+        rfl
+      · intro col hcol
+        simp only [mem_map] at hcol
+        obtain ⟨j, _, rfl⟩ := hcol
+        rw [pc_column]
+        simp
+      · simp only [hpcc.2.2.2.1]
+
+def exPcKw : PcKw :=
+  { normalize := none, timeUnit := none, timeDiv := some (.num 2), onsetOnly := none, noteSep := none, timeMargin := none,
+    returnIdxs := some true, removeSilence := none, endTime := none, binary := none }
+
+/-- the drum note is dropped, the remaining note fills pitch class 0 (normalised to 1) -/
+example : (computePcKw "performedpart" exPerf exPcKw).map (fun x => (x.cols, x.columns))
+    = some (2, [[1, 0, 0, 0, 0, 0, 0, 0, 0, 0, 0, 0], [1, 0, 0, 0, 0, 0, 0, 0, 0, 0, 0, 0]]) := by decide +kernel
+example : (computePcKw "performedpart" exPerf exPcKw).map (fun x => x.idx) = some (some [(0, 0, 2, 60)]) := by
+  decide +kernel
 
 end C13
